@@ -129,6 +129,36 @@ def flow_adversarial(rng):
     return b'\xff' * 16 + struct.pack('>HB', 19 + len(body), 2) + body
 
 
+def label_adversarial(rng):
+    """an accepted UPDATE whose MP_(UN)REACH carries labelled-unicast / MPLS-VPN NLRI with label stacks around and far beyond what
+    the length octet can describe (10 labels = 240 bits): depths 9..12, 33, 85 (8 * 3 * depth wraps a u8 from 11 on), with length
+    octets that are consistent, too small, or equal to the wrapped value"""
+    def nlri(safi, v6):
+        depth = rng.choice([1, 2, 9, 10, 10, 11, 11, 12, 21, 22, 33, 43, 85])
+        labels = b''.join(bytes([rng.below(256), rng.below(256), rng.below(256) & 0xfe]) for _ in range(depth - 1))
+        labels += bytes([rng.below(256), rng.below(256), rng.below(256) | 1])
+        rd = bytes(rng.below(256) for _ in range(8)) if safi == 128 else b''
+        pl = rng.choice([0, 8, 16, 24, 32])
+        pfx = bytes(rng.below(256) for _ in range(pl // 8))
+        bits = 24 * depth + 8 * len(rd) + pl
+        ln = rng.choice([bits & 0xff, bits & 0xff, min(bits, 255), 0, 8, 24, 40, 56, 255, (24 * depth) & 0xff])
+        pid = struct.pack('>I', rng.below(1 << 32)) if rng.chance(1, 4) else b''
+        return pid + bytes([ln]) + labels + rd + pfx
+    afi = rng.choice([1, 1, 2])
+    safi = rng.choice([4, 4, 128])
+    nl = b''.join(nlri(safi, afi == 2) for _ in range(1 + rng.below(2)))
+    if rng.chance(2, 3):
+        nhl = (4 if afi == 1 else 16) + (8 if safi == 128 else 0)
+        v = struct.pack('>HBB', afi, safi, nhl) + bytes(rng.below(256) for _ in range(nhl)) + b'\x00' + nl
+        attr = bytes([0x90, 14]) + struct.pack('>H', len(v)) + v
+    else:
+        v = struct.pack('>HB', afi, safi) + nl
+        attr = bytes([0x90, 15]) + struct.pack('>H', len(v)) + v
+    attrs = bytes([0x40, 1, 1, 0, 0x40, 2, 0]) + attr
+    body = struct.pack('>H', 0) + struct.pack('>H', len(attrs)) + attrs
+    return b'\xff' * 16 + struct.pack('>HB', 19 + len(body), 2) + body
+
+
 def gen(ctx):
     rng = core.SplitMix(ctx.seed + 1000)
     out = []
@@ -147,8 +177,12 @@ def gen(ctx):
             msg = grammar(rng)
             kind = 'grammar'
         elif rng.chance(1, 2):
-            msg = flow_adversarial(rng)
-            kind = 'flowspec'
+            if rng.chance(1, 2):
+                msg = flow_adversarial(rng)
+                kind = 'flowspec'
+            else:
+                msg = label_adversarial(rng)
+                kind = 'labels'
         else:
             ln = rng.choice([0, 1, 18, 19, 22, 23, 30, 100, 4096, 5000])
             msg = bytes(rng.below(256) for _ in range(ln))
